@@ -547,6 +547,24 @@ def variants(can, rng):
     return A, out
 
 
+def with_matrix_exp(case):
+    """The same specification evaluated with the transition matrices taken from torch.matrix_exp of the model's own
+    normalised rate matrix instead of its eigendecomposition (used ONLY to attribute a disagreement between two
+    writings: if both writings give the same number this way, what differs is the accuracy of the transition matrices
+    the model computes, not what the writings denote)."""
+    import types
+    torch = impl.load()
+    m = c01.build(case)
+    sm = m.subst_model if hasattr(m, "subst_model") else m._subst_model
+
+    def p_t(self, bl):
+        Q = self.q()
+        Q = Q / self.norm(Q).unsqueeze(-1).unsqueeze(-1)
+        return torch.matrix_exp(Q.unsqueeze(-3).unsqueeze(-3) * bl.unsqueeze(-1).unsqueeze(-1))
+    sm.p_t = types.MethodType(p_t, sm)
+    return float(m().detach())
+
+
 def run(tier, seed, replay=None):
     rep = C.Report(PID, tier, seed)
     rep.trusted = C.COMMON_TRUSTED + [
@@ -598,8 +616,24 @@ def run(tier, seed, replay=None):
             va, vb = oa["value"], ob["value"]
             if not (math.isfinite(va) and math.isfinite(vb)) or abs(va - vb) > 1e-9 * max(1.0, abs(va)):
                 k = f"C02:{kind}:{A['treem']['kind']}"
-                found.setdefault(k, (k, f"equivalent specifications ({kind}) give {va!r} and {vb!r}",
-                                     dict(kind=kind, A=A, B=B, value_A=va, value_B=vb)))
+                what = f"equivalent specifications ({kind}) give {va!r} and {vb!r}"
+                extra = {}
+                if math.isfinite(va) and math.isfinite(vb) and abs(va - vb) <= 1e-5 * max(1.0, abs(va)) \
+                        and A.get("subst", {}).get("type") in ("GTR", "HKY"):
+                    # a small disagreement: is it the writings, or the accuracy of the transition matrices?
+                    try:
+                        ea, eb = with_matrix_exp(A), with_matrix_exp(B)
+                        if abs(ea - eb) <= 1e-11 * max(1.0, abs(ea)):
+                            k = "C02:transition-matrix-accuracy:eigendecomposition"
+                            what = (f"equivalent specifications ({kind}) give {va!r} and {vb!r}; with the transition "
+                                    f"matrices taken from torch.matrix_exp of the model's own normalised rate matrix both "
+                                    f"give {ea!r}: the eigendecomposition route of SymmetricSubstitutionModel.p_t is "
+                                    f"accurate to {abs(va - ea) / abs(ea):.1e} / {abs(vb - ea) / abs(ea):.1e} relative "
+                                    f"here (frequencies {A['subst'].get('freqs')})")
+                            extra = dict(value_with_matrix_exp=ea)
+                    except Exception:  # noqa
+                        pass
+                found.setdefault(k, (k, what, dict(kind=kind, A=A, B=B, value_A=va, value_B=vb, **extra)))
         return list(found.values())[:6]
 
     C.handle_proof(rep, PID, search)
